@@ -3,6 +3,7 @@
 // The driver (engine/driver.cpp) runs clauses under rapidcheck, replays saved cases, shrinks failures.
 #pragma once
 #include <csetjmp>
+#include <unistd.h>
 #include <cstdio>
 #include <algorithm>
 #include <cmath>
@@ -32,6 +33,7 @@ struct Ctx
 {
 	Src& s;
 	bool verbose = false;	// true on replay and when a sample is rendered: properties describe the decoded case in `log`
+	int live_fd	 = -1;		// replay: additionally stream the description to this fd as it is produced (survives a crash)
 	std::ostringstream log;
 	bool nontrivial = false;
 	std::vector<std::string> classes;					 // class labels hit by this case
@@ -48,11 +50,21 @@ struct Ctx
 	void known(const char* id) { excluded.emplace_back(id); }
 };
 
-#define VLOG(c, expr)                 \
-	do                                \
-	{                                 \
-		if((c).verbose)               \
-			(c).log << expr << "\n";  \
+#define VLOG(c, expr)                                                   \
+	do                                                                  \
+	{                                                                   \
+		if((c).verbose)                                                 \
+		{                                                               \
+			if((c).live_fd >= 0)                                        \
+			{                                                           \
+				std::ostringstream _ls;                                 \
+				_ls << std::setprecision(17) << expr << "\n";           \
+				std::string _lt = _ls.str();                            \
+				if(::write((c).live_fd, _lt.data(), _lt.size()) < 0) {} \
+			}                                                           \
+			else                                                        \
+				(c).log << expr << "\n";                                \
+		}                                                               \
 	} while(0)
 
 #define VFAIL(expr)                                        \
